@@ -293,6 +293,28 @@ pub fn check(case: &EvalCase) -> Verdict {
             ),
         ));
     }
+    // the same evaluation with user functions that suspend before they answer: nothing that comes later in the
+    // expression starts while an earlier call is still waiting
+    if !o.model_log.is_empty() {
+        match catch(|| crate::probe::eval_in_ruleset_suspending(&case.expr, &case.facts, &case.fns, &case.symbols, 2)) {
+            Err(p) => return Err(Issue::new("lazy:panic:suspending", format!("panic {p} when the user functions suspend; case {}", case.render()))),
+            Ok((r2, log2)) => {
+                if log2 != o.model_log || compare(&r2, &o.model).is_some() {
+                    return Err(Issue::new(
+                        format!("lazy:call-log:suspending:{}", root_sig(&case.expr)),
+                        format!(
+                            "with user functions that suspend twice before they answer: invocation history {:?} and result {}, reference (lazy, once, left-to-right) {:?} and {}; case {}",
+                            log2,
+                            me::show_actual(&r2),
+                            o.model_log,
+                            me::show_model(&o.model),
+                            case.render()
+                        ),
+                    ));
+                }
+            }
+        }
+    }
     if let Some(d) = compare(r, &o.model) {
         return Err(Issue::new(
             format!("lazy:result:{d:?}:{}", root_sig(&case.expr)),
